@@ -37,7 +37,7 @@ def run(ctx):
         packet_rules.stream_loop_shape(ctx, prog, "R4")
         codec_rules.extract_window(ctx, prog, "R5")
         codec_rules.append_shape(ctx, prog, "R5")
-        page_rules.formulas(ctx, prog, "R6")
-        page_rules.cursor_writers(ctx, prog, "R6")
+        page_rules.formulas(ctx, prog, "R6", side="reader")
+        page_rules.cursor_writers(ctx, prog, "R6", side="reader")
         cache_rules.serve_only_verified(ctx, prog, cache_rules.PR, rule="R6")
     ctx.cfg = None
